@@ -568,7 +568,9 @@ def load_function(result=_AnyYAML, *args):     # type: ignore
             """
 
             if isinstance(source, Path):
-                with source.open('r') as f:
+                # YAML files are UTF-8 (or UTF-16 with a BOM), whatever the
+                # locale is; PyYAML works out which if given bytes.
+                with source.open('rb') as f:
                     return cast(T, yaml.load(f, Loader=self.loader))
             else:
                 return cast(T, yaml.load(source, Loader=self.loader))
